@@ -274,7 +274,10 @@ Definition xstep (x : xstate) (l : list N) : xstate * obs :=
 Definition enabled (x : xstate) : list (list N) :=
   let s := xs x in
   if gone s then [] else
-  let ids := if N.eqb (state_id s) 0 then [0%N] else [0%N; state_id s] in
+  (* requested ids: the initial id, the current one, and one AHEAD of the channel (a StateId is
+     an opaque public value; it may come from another channel instance) *)
+  let ids := (if N.eqb (state_id s) 0 then [0%N] else [0%N; state_id s])
+             ++ (if N.ltb (state_id s) MAXID then [state_id s + 1] else [])%N in
   (if Nat.ltb 0 (senders s) && Nat.ltb (x_sent x) (x_maxsend x) then [encode (Send (N.of_nat (S (x_sent x))))] else [])
   ++ (if x_shared x then [] else [encode Close])
   ++ (if Nat.ltb 0 (receivers s) then map (fun i => encode (TryReceive i)) ids else [])
